@@ -360,6 +360,8 @@ BOUNDARY = [
 
 def oracle_search(ctx, corr, broken):
     env = ss.locate_statements()
+    if env[2]:
+        return None         # statements not located (source and loaded code out of step?): the oracles cannot be trusted
     deadline = time.time() + ctx.budget(28, 600)
     known = getattr(ctx, "known_signatures", set())
 
